@@ -39,6 +39,129 @@ def run_simple(prop, spec, tier, known_ids, t0, args):
             extra_viol.append({'op': f'cross-configuration digest {key}', 'config': ','.join(sorted(vals)), 'msg': f'results expressed through named members differ between configurations: {vals}', 'input_bits': [], 'got_bits': [str(v) for v in vals.values()], 'want_bits': []})
     return G.report(prop, tier, spec['level'], results, spec['rule'], t0, src=spec['src'], model_checking=mc, extra_viol=extra_viol)
 
+# ---------------------------------------------------------------------------------------------- differential checks (C15, C03a)
+import struct, subprocess, json as _json, fnmatch
+
+def _first_diff(fa, fb):
+    a = open(fa, 'rb').read(); b = open(fb, 'rb').read()
+    n = min(len(a), len(b)) // 8
+    if a == b:
+        return None
+    lo, hi = 0, n          # binary search on prefix equality is not valid for arbitrary data; scan in blocks
+    B = 1 << 16
+    for off in range(0, n * 8, B):
+        if a[off:off + B] != b[off:off + B]:
+            for k in range(off, min(off + B, n * 8), 8):
+                if a[k:k + 8] != b[k:k + 8]:
+                    return k // 8
+    return n
+
+_CAP = [None]
+
+def _locate(binary_cfg, binary_base, opname, tier, opinfo):
+    """first differing case of one op between two builds: returns dict(domain, index, in, got_cfg, got_base)"""
+    import os, tempfile
+    fa = os.path.join(G.BUILD, 'out', 'dump_a.bin'); fb = os.path.join(G.BUILD, 'out', 'dump_b.bin')
+    capa = ['--cap', str(_CAP[0])] if _CAP[0] else []
+    subprocess.run([binary_cfg, '--tier', tier, '--dump-op', opname, '--dump-file', fa] + capa, capture_output=True)
+    subprocess.run([binary_base, '--tier', tier, '--dump-op', opname, '--dump-file', fb] + capa, capture_output=True)
+    idx = _first_diff(fa, fb)
+    if idx is None:
+        return None
+    d = 0
+    for dom in opinfo['domains']:
+        if idx < dom['size']:
+            break
+        idx -= dom['size']; d += 1
+    sa = subprocess.run([binary_cfg, '--tier', tier, '--dump-op', opname, '--show-index', f'{d}:{idx}'] + capa, capture_output=True, text=True).stdout
+    sb = subprocess.run([binary_base, '--tier', tier, '--dump-op', opname, '--show-index', f'{d}:{idx}'] + capa, capture_output=True, text=True).stdout
+    try:
+        ja, jb = _json.loads(sa), _json.loads(sb)
+    except Exception:
+        ja = jb = {'in': [], 'got': []}
+    return {'domain': d, 'index': idx, 'in': ja['in'], 'got_cfg': ja['got'], 'got_base': jb['got']}
+
+def run_differential(prop, spec, tier, known_ids, t0, args):
+    """compile the same drivers under a baseline and under each configuration; per-op observation digests must be equal"""
+    table = spec['table_thorough'] if tier == 'thorough' else spec['table_quick']
+    _CAP[0] = spec.get('cap')
+    cfgs = spec['configs_thorough'] if tier == 'thorough' else spec['configs_quick']
+    base = spec.get('baseline', 'default')
+    jobs, meta = [], []
+    for c in [base] + cfgs:
+        for (src, parts, libs, flags) in table:
+            for k in (parts if parts is not None else [None]):
+                fl = tuple(flags) + ((f'-DGLMX_PART={k}',) if k is not None else ())
+                tag = os.path.splitext(os.path.basename(src))[0] + (f'p{k}' if k is not None else '')
+                jobs.append((src, c, fl, tag, (), tuple(libs))); meta.append((c, src, k))
+    bins = G.build_many(jobs)
+    from concurrent.futures import ThreadPoolExecutor
+    def one(bm):
+        b, (c, src, k) = bm
+        r = G.run_driver(b, prop, c, tier, [], threads=4, cap=spec.get('cap'), quiet=True)
+        r['_src'] = src; r['_part'] = k; r['_bin'] = b
+        return r
+    with ThreadPoolExecutor(max_workers=4) as ex:
+        results = list(ex.map(one, zip(bins, meta)))
+    basemap = {}
+    for r in results:
+        if r['config'] == base:
+            for op in r['ops']:
+                basemap[(r['_src'], r['_part'], op['name'])] = (op, r)
+    kfl = [k for k in G.load_known() if k['property'] == prop]
+    extra_viol, extra_known, compared, differing = [], [], 0, 0
+    for r in results:
+        # violations raised by the drivers' own oracles belong to other properties; here only the cross-configuration equality is judged
+        r['violations'] = []; r['known'] = []
+        if r['config'] == base:
+            continue
+        for op in r['ops']:
+            key = (r['_src'], r['_part'], op['name'])
+            if key not in basemap:
+                continue
+            bop, br = basemap[key]; compared += 1
+            if op['digest'] == bop['digest'] and op['evaluations'] == bop['evaluations']:
+                continue
+            differing += 1
+            loc = _locate(r['_bin'], br['_bin'], op['name'], tier, bop) or {'domain': 0, 'index': 0, 'in': [], 'got_cfg': [], 'got_base': []}
+            v = {'op': op['name'], 'config': r['config'], 'domain': loc['domain'], 'index': loc['index'], 'input_bits': loc['in'], 'got_bits': loc['got_cfg'], 'want_bits': loc['got_base'],
+                 'msg': f"results under configuration '{r['config']}' differ from the baseline '{base}' build (first differing case shown; want = baseline result)", '_src': r['_src'],
+                 'detail': {'kind': 'differential', 'baseline': base, 'part': r['_part'], 'cap': spec.get('cap'), 'libs': [l for (s_, p_, l, f_) in table if s_ == r['_src']][0], 'flags': [f for (s_, p_, l, f) in table if s_ == r['_src']][0]}}
+            kid = None
+            for k in kfl:
+                og = k['site']['op_glob']; cg = k['site']['config_glob']
+                if any(fnmatch.fnmatch(op['name'], g_) for g_ in (og if isinstance(og, list) else [og])) and any(fnmatch.fnmatch(r['config'], g_) for g_ in (cg if isinstance(cg, list) else [cg])) and _kf_case_ok(k, loc):
+                    kid = k['id']; break
+            if kid:
+                v['kf'] = kid; extra_known.append(v)
+            else:
+                extra_viol.append(v)
+    cov = {'configurations_compared_with_baseline': cfgs, 'baseline': base, 'op_digests_compared': compared, 'op_digests_differing': differing,
+           'operation_table': [f"{s_}{'[parts ' + ','.join(map(str, p_)) + ']' if p_ is not None else ''}" for (s_, p_, l, f) in table]}
+    return G.report(prop, tier, spec['level'], results, spec['rule'], t0, extra_cov=cov, extra_viol=extra_viol, extra_known=extra_known)
+
+def _kf_case_ok(k, loc):
+    """a known finding of a differential check names the op, the configuration and a predicate on the first differing input"""
+    pred = k.get('site', {}).get('input_predicate')      # python expression over w = list of input words
+    if not pred:
+        return True
+    try:
+        return bool(eval(pred, {'w': [int(x, 16) for x in loc['in']]}))
+    except Exception:
+        return False
+
+def replay_differential(prop, path):
+    rec = _json.load(open(path)); d = rec['detail']
+    fl = tuple(d['flags']) + ((f"-DGLMX_PART={d['part']}",) if d['part'] is not None else ())
+    tag = os.path.splitext(os.path.basename(rec['driver']))[0] + (f"p{d['part']}" if d['part'] is not None else '')
+    bc = G.build(rec['driver'], rec['config'], fl, tag, (), tuple(d['libs'])); bb = G.build(rec['driver'], d['baseline'], fl, tag, (), tuple(d['libs']))
+    arg = ['--tier', rec['tier'], '--dump-op', rec['op'], '--show-index', f"{rec['domain']}:{rec['index']}"] + (['--cap', str(d['cap'])] if d.get('cap') else [])
+    sa = subprocess.run([bc] + arg, capture_output=True, text=True).stdout.strip(); sb = subprocess.run([bb] + arg, capture_output=True, text=True).stdout.strip()
+    print(f"REPLAY {rec['op']} case {rec['domain']}:{rec['index']}\n  {rec['config']}: {sa}\n  {d['baseline']}: {sb}")
+    if sa != sb:
+        print(f'VIOLATION property={prop} replay={os.path.abspath(path)}'); return 1
+    return 0
+
 def mc_c02(results):
     st = tr = 0
     for r in results:
@@ -60,7 +183,18 @@ def mc_c14(results):
     return {'states': st, 'transitions': tr, 'traces_validated_against_impl': tr,
             'state_graph_note': 'states = finite float/double bit patterns visited; transitions = nextFloat/prevFloat (and n-step chains) executed on the implementation; every transition is compared with the reference model, so validated == transitions'}
 
+_C15_TABLE_Q = [('drivers/c01.cpp', [0, 2, 3, 5, 7], [], ['-O1']), ('drivers/c11.cpp', None, ['-lquadmath'], []), ('drivers/c14.cpp', None, [], []), ('drivers/c05.cpp', None, [], []),
+                ('drivers/c18.cpp', None, [], []), ('drivers/c06.cpp', None, [], []), ('drivers/c07.cpp', None, [], []), ('drivers/c13.cpp', None, [], []), ('drivers/c12.cpp', None, [], [])]
+_C15_TABLE_T = [('drivers/c01.cpp', list(range(15)), [], ['-O1'])] + _C15_TABLE_Q[1:] + [('drivers/c02.cpp', [0, 1, 2], [], ['-O1']), ('drivers/c04.cpp', None, [], []), ('drivers/c09.cpp', None, [], ['-DC09_RECOMPOSE_DOUBLE']), ('drivers/c10.cpp', None, [], []), ('drivers/c19.cpp', None, [], [])]
+
 PROPS = {
+ 'C15': dict(run=run_differential, replay=replay_differential, level='exploration', src='drivers/c01.cpp', cap=60000,
+   table_quick=_C15_TABLE_Q, table_thorough=_C15_TABLE_T,
+   configs_quick=['cxx98', 'cxx20', 'ctor_init', 'explicit_ctor', 'size_t_length', 'xyzw_only', 'swizzle', 'unrestricted_gentype', 'quat_wxyz', 'pure', 'O0', 'O3'],
+   configs_thorough=['cxx98', 'cxx03', 'cxx11', 'cxx14', 'cxx17', 'cxx20', 'cxx_unknown', 'inline', 'ctor_init', 'explicit_ctor', 'size_t_length', 'xyzw_only', 'swizzle', 'swizzle_intr', 'unrestricted_gentype', 'quat_wxyz', 'pure', 'compiler_unknown', 'platform_unknown', 'arch_unknown', 'O0', 'O3', 'clang', 'clang_O0'],
+   technique='exhaustive differential exploration over the configuration lattice: the same operation table (the drivers of the other properties, with their complete quick/thorough input domains) is compiled once per non-semantic configuration and every per-operation observation digest must equal the baseline build; a differing digest is bisected to the first differing input',
+   text='Every non-semantic macro / language level / optimisation level / compiler is one point of the configuration lattice and one separate build of the same driver sources from the working tree. Each driver op accumulates a digest of every value GLM returned on every enumerated input (C01: every scalar and vector result of every function x L x T x Q; C11/C14: the std-versus-fallback sensitive functions on the float lattices; integer, packing, quaternion and geometric drivers). Digest equality with the baseline is required for every (op, configuration); results are expressed through named members so storage-order switches are compared by value.',
+   rule='configurations x operation table (see coverage.operation_table) x the quick (thorough) domains of those drivers; evaluations are summed over all builds; a case is non-trivial as defined by its driver.'),
  'C04': dict(src='drivers/c04.cpp', level='exploration', configs=['default', 'quat_wxyz'], digest_equal=['named_member_digest_float', 'named_member_digest_double'],
    technique='exhaustive enumeration of a finite rotation set (integer quaternions, icosians, axis-angle lattice, 10^-j neighbourhoods of every branch boundary and gimbal-lock set, each +-1..3 ulp) x vector lattice through every quaternion/matrix/axis-angle/Euler entry point, against a long-double Hamilton/Rodrigues reference, in both quaternion storage orders',
    text='q*v, mat3/4_cast, quat_cast (all four largest-component branches and ties), products, angle/axis/angleAxis, eulerAngles/quat(euler), qua(u,v) incl. parallel/opposite/nearly-opposite pairs, inverse/conjugate/normalize, all 12 gtx eulerAngleABC orders + 6 two-angle forms + yawPitchRoll/orientate with extractEulerAngle round trips, dual quaternions; the same source is built with the default and the WXYZ layout and a digest of every result expressed through named members must be identical in both.',
@@ -89,7 +223,7 @@ PROPS = {
    technique='exhaustive enumeration of all 2^24 8-bit RGB triples (and 16-bit lattices) through the integer YCoCg-R pair on every carrier type, of consecutive-float pairs on dense grids (all floats of [0,1] in the thorough tier) through the sRGB pair for five gammas, and of the 8-bit RGB cube / hue grids through HSV',
    text='rgb2YCoCgR/YCoCgR2rgb exactly lossless on all 2^24 triples for u8,i16,u16,i32,u32,i64 carriers; sRGB pair: range, fixes 0 and 1, monotone between adjacent grid points, mutual inverse within the bound derived from the curve constants, alpha bits untouched; HSV: hue in [0,360), round trips both ways; float YCoCg round trips; saturation/luminosity weights.',
    rule='ALL 2^24 triples; grids k/16384 + toe k/262144 + both breakpoints +-2ulp (thorough: every consecutive float pair in [0,1]); hue 360k/3600 + sector boundaries +-2ulp.'),
- 'C01': dict(src='drivers/c01.cpp', level='exploration', parts=13, flags=['-O1'],
+ 'C01': dict(src='drivers/c01.cpp', level='exploration', parts=15, flags=['-O1'],
    technique='exhaustive enumeration of the alphabet (component-wise function or operator) x (overload shape) x (vector length 1-4) x (element type) x (qualifier) with complete products of a special-value lattice as inputs, every tuple placed in every lane; oracle = the scalar overload of GLM itself on each component',
    text='Every component-wise function and operator of common/exponential/trigonometric/integer/vector_relational and their ext/gtc/gtx twins is instantiated for every length 1-4, highp/mediump/lowp and every element type it accepts (float, double, int, uint, i8, u8, i16, u16, i64, u64, bool), in every overload shape (vec-vec, vec-scalar, scalar-vec, vec-vec1, vec1-vec, scalar-edge forms, out-parameter forms, compound assignment, ++/--), and evaluated on the complete n-ary product of the special-value lattice; component i of the vector result is compared with the scalar overload on component i (identical bits for selection/rounding/comparison/integer/single-libm-call functions, value equality for arithmetic operators, rounding tolerance for mix/smoothstep/mod/fma, 2^-8 relative for lowp inversesqrt). Matrix abs/mix/equal on all nine shapes.',
    rule='VALUES<T>: 77 float / 80 double special values (+-0, subnormals, ties, 2^23, 2^24, 2^31, max, inf, quiet and signalling NaN ...), 23 integer patterns per width (0, 1, extremes, alternating and run patterns); unary ops sweep VALUES, binary VALUES^2, ternary VALUES^3; lane k of a vector receives the tuple at rotated indices so neighbouring lanes always hold different tuples. Non-trivial = tuple inside the operator domain (no signed overflow, no division by zero, shift count < width).'),
